@@ -360,9 +360,17 @@ func (f *Frame) applyContract(c *Contract, sig *types.Signature, invoke bool, ar
 		rn = c.ResultNames
 	}
 	for i := range results {
-		if i < len(rn) {
-			if sp, ok := c.ResultSpecs[rn[i]]; ok {
+		names := []string{fmt.Sprintf("result%d", i)}
+		if i < len(rn) && rn[i] != "" {
+			names = append(names, rn[i])
+		}
+		for _, n := range names {
+			if sp, ok := c.ResultSpecs[n]; ok {
 				results[i].Prov = &FuncProv{Spec: sp}
+			}
+			// `maybe r is A|B`: the returned func value satisfies a named spec only where conforms(r, Spec) is known
+			if sp, ok := c.MaybeSpecs[n]; ok && results[i].K == VFunc {
+				results[i].Prov = &FuncProv{Spec: sp, Maybe: true}
 			}
 		}
 	}
